@@ -440,14 +440,19 @@ def check(prop, tier, seed):
             open(hp, "w").write("\n".join(hints) + "\n")
             extra = ["--hints", hp]
         pred = run_pred(prop, tier, seed, extra, race=bool(cfg.get("race")))
+        def unlisted_failures(pr):
+            return [fl for fl in pr.get("failures", []) if not any(k["key"] == fl.get("key") for k in known)]
         for sd in seeds[1:]:
-            if pred.get("error") or pred.get("failures"):
+            if pred.get("error") or unlisted_failures(pred):
                 break
             p2 = run_pred(prop, tier, sd, extra, race=bool(cfg.get("race")))
             if not p2.get("error"):
                 for k in ("evaluations", "distinct_nontrivial"):
                     if isinstance(p2.get(k), int) and isinstance(pred.get(k), int):
                         p2[k] += pred[k]
+                # keep the listed findings seen so far (they are printed, not counted)
+                seen = {fl.get("key") for fl in p2.get("failures", [])}
+                p2["failures"] = p2.get("failures", []) + [fl for fl in pred.get("failures", []) if fl.get("key") not in seen]
             pred = p2
         if pred.get("error"):
             broken.append({"kind": "predicate", "name": "mfh prop " + prop, "detail": pred["error"]})
